@@ -194,4 +194,16 @@ PROPS = {
                         "a goroutine sleeping in a 1 s poll is counted, only a running/runnable one is 'busy background work'",
                         "store failures are single transient faults; checkpoint reads/writes used by the replication loops are not injected here"],
     },
+    "C06": {
+        "pkg": "hserver", "test": "TestC06", "level": "exploration",
+        "quick": T(16, 5, timeout=1500), "thorough": T(16, 120, timeout=14000),
+        "rule": "full in-process service (real MetaCDC, reader, writer, SDK; real etcd; fake MQ and downstream) with two tasks A and B replicating one collection each, on the same target (shared physical channels, batch size 1..3) or on different targets; "
+                "after 1..4 acknowledged packs a fault hits A at a drawn position: downstream rejects A's write (once or persistently), the store rejects A's checkpoint (once or persistently), or A's rows address a partition unknown to source catalog and downstream; rows keep being produced for both. "
+                "Oracle once the service is at rest: process alive; A Paused with a non-empty reason in get and list (or, for a transient write fault, the retried pack got through and nothing is missing); nothing of A accepted after the failing pack; A's checkpoint names no message at or beyond the first unacknowledged row; "
+                "B Running with empty reason and all rows of B produced after the fault arrive; after the fault is cleared and A resumed every row of the failing packs arrives (never silently skipped). "
+                "non-trivial = the fault hit after at least two acknowledged packs, or both tasks share a target; distinct = distinct scenario parameters",
+        "assumptions": ["a store that also rejects the state update of the automatic pause (double fault) is not generated",
+                        "verdicts about missing rows are only taken when the service is at rest (goroutine states); otherwise the case is counted as inconclusive",
+                        "failing DDL events and unknown collections are covered at reader / writer level (C01, C08), not here"],
+    },
 }
